@@ -96,7 +96,7 @@ pub(crate) fn park(location: Location) {
             // The thread was previously unparked while it was active. Instead
             // of parking, consume the unpark.
             State::Runnable { unparked: true } => {
-                active.set_runnable();
+                active.consume_unpark();
                 return false;
             }
             // The thread doesn't have a saved unpark; set its state to blocked.
